@@ -74,7 +74,7 @@ def r05_1(ctx: Ctx):
     # construction of the items themselves: R02.1 (seed) and R02.8 (new item)
     from . import c02
     c02.r02_1(ctx)
-    c02.r02_7_8(ctx)
+    c02.r02_8_selection(ctx)
     # the evaluation routine does not touch the point before calling the objective
     tw = roles.task_wrapper
     ex2 = ctx.explorer(inline=lambda f, st: f is tw)
@@ -163,7 +163,12 @@ def r05_4_5(ctx: Ctx):
                 if res is not None:
                     r2 = C.subst_val(res, {key_of(var(roles.results_getter.param_names[0])): key_of(selfv)})
                     expx0 = attr(attr(sub(attr(r2, 'bestTrials'), RF.const(0)), 'point'), 'floatVariables')
-                okx = x0 is not None and expx0 is not None and C.same_mod_ver(x0, expx0)
+                cands = [expx0] if expx0 is not None else []
+                for ge in C.call_events(p, callee=roles.results_getter):
+                    if not ge.d.get('inlined') and ge.d.get('result') is not None:
+                        cands.append(attr(attr(sub(attr(ge.d['result'], 'bestTrials'), RF.const(0)), 'point'),
+                                          'floatVariables'))
+                okx = x0 is not None and any(C.same_mod_ver(x0, c_) for c_ in cands)
                 ctx.check(okx, 'R05.5', rf.short, loc, 'x0 is the point of the best global-phase trial',
                           f'the refinement starts from {C.fmt(x0)}, not from the best trial\'s point (the result can '
                           f'then be worse than the global-phase best)', key=f'R05.5::{rf.short}::x0')
@@ -229,7 +234,12 @@ def check(ctx: Ctx):
     if C.want(ctx, 'R05.3'):
         ctx.rule('R05.3', 'affine map: cube -> box is y*(U-L) + (U+L)/2 per coordinate with the instance\'s bounds, '
                           'which the solver binds to the problem\'s lower/upper in this order')
-        evo.rule_affine(ctx, 'R05.3')
+        roles = C.roles_of(ctx)
+        api = [roles.api(n) for n in ('Solve', 'DoGlobalIteration', 'DoLocalRefinement', 'GetResults')]
+        scope = ctx.pta.reachable(api + [ctx.ix.func('Solver.__init__')])
+        # attributes cached by the evolvent's constructor are acceptable here as long as nothing the Solver can
+        # reach rewrites the bounds they were computed from (SetBounds is not reachable from the Solver)
+        evo.rule_affine(ctx, 'R05.3', which=('P2D',), scope=scope)
         evo.rule_bounds_binding(ctx, 'R05.3')
     if C.want(ctx, 'R05.4') or C.want(ctx, 'R05.5'):
         r05_4_5(ctx)
